@@ -18,6 +18,7 @@ def main (args : List String) : IO UInt32 := do
   match args with
   | ["store"] => loop StoreDrv.step hin hout StoreDrv.init; return 0
   | ["arch"] => loop ArchDrv.step hin hout ArchDrv.init; return 0
+  | ["sliding"] => loop SlidingDrv.step hin hout SlidingDrv.init; return 0
   | ["idx"] => loop IdxDrv.step hin hout IdxDrv.init; return 0
   | ["cqd"] => loop CqdDrv.step hin hout CqdDrv.init; return 0
   | ["esctl"] => loop EsControlDrv.step hin hout EsControlDrv.init; return 0
